@@ -5,7 +5,9 @@ set -u
 PATCH="$(readlink -f "$1")"; shift
 cd /verif
 git -C /repo apply "$PATCH" || { echo "patch does not apply"; exit 3; }
-trap 'git -C /repo checkout -- . ; git -C /repo clean -fdq -- examples 2>/dev/null' EXIT
+# evidence files describe the unchanged tree: keep them out of the way while a seeded change is applied
+EVBAK=$(mktemp -d /tmp/evbak.XXXXXX); cp -a evidence/. "$EVBAK"/ 2>/dev/null
+trap 'git -C /repo checkout -- . ; git -C /repo clean -fdq -- examples 2>/dev/null; cp -a "$EVBAK"/. /verif/evidence/ 2>/dev/null; rm -rf "$EVBAK"' EXIT
 for ID in "$@"; do
   OUT=$(timeout 3000 ./check "$ID" quick 2>/tmp/try_seed_err.log); RC=$?
   echo "$ID exit=$RC $(echo "$OUT" | grep -E "^$ID (quick|thorough)" | tail -n1)"
